@@ -16,7 +16,8 @@ Var(n) == V("var", n)
 Inl(cond, sels) == [k |-> "inline", cond |-> cond, dirs |-> <<>>, sels |-> sels, bad |-> ""]
 Spr(name) == [k |-> "spread", name |-> name, dirs |-> <<>>, bad |-> ""]
 Bad(s, b) == [s EXCEPT !.bad = b]
-Frg(name, cond, sels) == [name |-> name, cond |-> cond, sels |-> sels]
+Frg(name, cond, sels) == [name |-> name, cond |-> cond, sels |-> sels, bad |-> ""]
+BadFrg(name, cond, sels, b) == [name |-> name, cond |-> cond, sels |-> sels, bad |-> b]     \* a defective directive on the definition
 Dir(n, v) == [n |-> n, v |-> v]
 WithDirs(s, ds) == [s EXCEPT !.dirs = ds]
 SeqsUpTo(X, n) == UNION {[1..m -> X] : m \in 1..n}
@@ -218,6 +219,12 @@ FamDefects ==
   \cup { Plain("defect", <<Bad(F("", "title"), b), FS("", "a", <<F("", "name")>>)>>) : b \in {"unknown_dir", "misplaced_dir", "dir_unknown_arg", "dir_bad_arg", "dir_missing_arg"} }
   \cup { Plain("defect", <<FS("", "a", <<Bad(F("", "name"), b)>>), F("", "title")>>) : b \in {"unknown_dir", "misplaced_dir", "dir_unknown_arg", "dir_bad_arg", "dir_missing_arg"} }
   \cup { Plain("defect", <<Bad(Inl("", <<F("", "title")>>), b)>>) : b \in {"unknown_dir", "dir_unknown_arg"} }
+  \* ... on a fragment definition (spread before it is defined, spread from another fragment, not spread at all)
+  \cup { Case("defect", DocF(<<FS("", "a", <<Spr("F"), F("", "n")>>)>>, <<BadFrg("F", "A", <<F("", "name")>>, b)>>), "", NoVars, {}) :
+           b \in {"unknown_dir", "misplaced_dir", "dir_unknown_arg", "dir_bad_arg", "dir_missing_arg"} }
+  \cup { Case("defect", DocF(<<FS("", "a", <<Spr("F")>>), F("", "title")>>, <<Frg("F", "A", <<F("", "n"), Spr("G")>>), BadFrg("G", "A", <<F("", "name")>>, b)>>), "", NoVars, {}) :
+           b \in {"unknown_dir", "misplaced_dir"} }
+  \cup { Case("defect", DocF(<<F("", "title")>>, <<BadFrg("F", "A", <<F("", "name")>>, b)>>), "", NoVars, {}) : b \in {"unknown_dir", "dir_unknown_arg"} }
   \* undefined type condition: inline fragment and fragment definition
   \cup { Plain("defect", <<Inl("Nope", <<F("", "title")>>), F("x", "title")>>),
          Plain("defect", <<FS("", "a", <<Inl("Nope", <<F("", "name")>>), F("", "n")>>)>>),
